@@ -175,7 +175,7 @@ def match_finding(findings, prop, sig):
 def write_evidence(ctx, level, n_viol, wall):
     cov = dict(ctx.counts)
     evaluations = int(cov.get("evaluations", 0))
-    distinct = len(ctx.sets.get("distinct", ()))
+    distinct = len(ctx.sets.get("distinct", ())) or int(cov.get("distinct_executions", 0))
     cov["evaluations"] = evaluations
     cov["distinct_nontrivial"] = distinct
     cov["rule"] = ctx.rule
